@@ -170,39 +170,47 @@ def applications(x):
 
 
 def structure_signature(x):
-    """A structural hash of a graph (node kinds and wiring), independent of object identity."""
+    """A structural hash of a graph (node kinds and wiring), independent of object identity.
+
+    Every node is reduced to a digest of (kind, attributes, digests of its inputs): shared sub-graphs are hashed once,
+    so the cost is linear in the DAG (nested tuples would be compared / printed as trees: exponential)."""
+    import hashlib
+
     import einx._src.tracer as tracer
 
     memo = {}
 
+    def h(*parts):
+        return hashlib.sha1(repr(parts).encode()).hexdigest()[:20]
+
     def rec(v):
         if _is_prim(v):
             if isinstance(v, np.ndarray):
-                return ("nd", v.shape)
-            return ("p", repr(v))
+                return h("nd", v.shape)
+            return h("p", repr(v))
         if isinstance(v, (list, tuple)):
-            return (type(v).__name__, tuple(rec(i) for i in v))
+            return h(type(v).__name__, tuple(rec(i) for i in v))
         if isinstance(v, dict):
-            return ("dict", tuple((rec(k), rec(val)) for k, val in v.items()))
+            return h("dict", tuple((rec(k), rec(val)) for k, val in v.items()))
         if isinstance(v, slice):
-            return ("slice", rec(v.start), rec(v.stop), rec(v.step))
+            return h("slice", rec(v.start), rec(v.stop), rec(v.step))
         if id(v) in memo:
             return memo[id(v)]
-        memo[id(v)] = ("cycle",)
+        memo[id(v)] = h("cycle")
         if isinstance(v, tracer.Graph):
-            r = ("graph", len(v.inputs), rec(v.output))
+            r = h("graph", len(v.inputs), rec(v.output))
         elif isinstance(v, tracer.Tracer):
             if v.origin is None:
-                r = ("input", type(v).__name__, getattr(v, "shape", None))
+                r = h("input", type(v).__name__, getattr(v, "shape", None))
             else:
                 o = v.origin
                 extra = ()
                 for attr in ("key", "op", "import_", "from_", "as_", "operator", "name", "message"):
                     if hasattr(o, attr) and isinstance(getattr(o, attr), (str, type(None))):
                         extra += (getattr(o, attr),)
-                r = (type(o).__name__, extra, tuple(rec(i) for i in o.inputs))
+                r = h(type(o).__name__, extra, tuple(rec(i) for i in o.inputs))
         else:
-            r = ("obj", type(v).__name__)
+            r = h("obj", type(v).__name__)
         memo[id(v)] = r
         return r
 
